@@ -1604,6 +1604,68 @@ fn guard<R>(loc: &mut Loc, nm: &str, what: &dyn Fn() -> String, f: impl FnOnce()
     }
 }
 
+/// Sparse MULTIVARIATE polynomials over D5 in two variables: all coefficient vectors over {0, 1, 4} on the
+/// monomials {1, x0, x1, x0 x1, x0^2}; results of different operation sequences that denote the same
+/// polynomial must be == and hash-equal (also when declared with a larger `num_vars`, which `==` ignores).
+fn mv_poly_checks(ctx: &mut Ctx) {
+    use ark_poly::multivariate::{SparsePolynomial as MvP, SparseTerm, Term};
+    use ark_poly::DenseMVPolynomial;
+    type MP = MvP<D5, SparseTerm>;
+    let monos: Vec<Vec<(usize, usize)>> = vec![vec![], vec![(0, 1)], vec![(1, 1)], vec![(0, 1), (1, 1)], vec![(0, 2)]];
+    let alpha = [0u64, 1, 4];
+    let n = 3u64.pow(5);
+    let build = |cv: &[u64], nv: usize| -> MP { MP::from_coefficients_vec(nv, cv.iter().enumerate().filter(|(_, c)| **c != 0).map(|(i, c)| (f5(*c), SparseTerm::new(monos[i].clone()))).collect()) };
+    let cvec = |i: u64| -> Vec<u64> { unrank_vec(i, &[3, 3, 3, 3, 3]).iter().map(|k| alpha[*k as usize]).collect() };
+    ctx.sweep("poly_multivariate_sparse/D5", n * n, |i, loc| {
+        let [ib, ia] = unrank(i, [n, n]);
+        let (ca, cb) = (cvec(ia), cvec(ib));
+        let (a0, b0) = (build(&ca, 2), build(&cb, 2));
+        let what = || format!("multivariate a={ca:?} b={cb:?} (coefficients of 1, x0, x1, x0*x1, x0^2)");
+        if loc.sampling() {
+            loc.sample(what());
+        }
+        rel(loc, &a0, &b0, ca == cb, &what);
+        let zero = MP::zero();
+        let w: &dyn Fn() -> String = &what;
+        let mut rs: Vec<(&str, Option<MP>)> = Vec::new();
+        rs.push(("(&a+&b)-&b", guard(loc, "(&a+&b)-&b", w, || &(&a0 + &b0) - &b0)));
+        rs.push(("(&a-&b)+&b", guard(loc, "(&a-&b)+&b", w, || &(&a0 - &b0) + &b0)));
+        rs.push(("a+=(0,&b)", guard(loc, "a+=(0,&b)", w, || {
+            let mut t = a0.clone();
+            t += (f5(0), &b0);
+            t
+        })));
+        rs.push(("a+=(3,&b);a+=(2,&b)", guard(loc, "a+=(3,&b);a+=(2,&b)", w, || {
+            let mut t = a0.clone();
+            t += (f5(3), &b0);
+            t += (f5(2), &b0);
+            t
+        })));
+        rs.push(("a+=&b;a-=&b", guard(loc, "a+=&b;a-=&b", w, || {
+            let mut t = a0.clone();
+            t += &b0;
+            t -= &b0;
+            t
+        })));
+        rs.push(("-(-a)", guard(loc, "-(-a)", w, || -(-a0.clone()))));
+        rs.push(("&a+&zero", guard(loc, "&a+&zero", w, || &a0 + &zero)));
+        rs.push(("same terms, num_vars = 3", guard(loc, "from_coefficients_vec(3, ..)", w, || build(&ca, 3))));
+        rs.push(("same terms listed in reverse order", guard(loc, "from_coefficients_vec(reversed)", w, || {
+            MP::from_coefficients_vec(2, ca.iter().enumerate().rev().filter(|(_, c)| **c != 0).map(|(i, c)| (f5(*c), SparseTerm::new(monos[i].clone()))).collect())
+        })));
+        for (nm, r) in rs.iter() {
+            if let Some(r) = r {
+                loc.class("equal_via_different_sequences");
+                rel(loc, &a0, r, true, &|| format!("{}: `{nm}` (stored {:?}) vs a", what(), r.terms.iter().map(|(c, t)| (d5(c), t.iter().cloned().collect::<Vec<_>>())).collect::<Vec<_>>()));
+            }
+        }
+        if let Some(d) = guard(loc, "&a-&a", w, || &a0 - &a0) {
+            rel(loc, &zero, &d, true, &|| format!("{}: `&a-&a` (stored {} terms) vs zero()", what(), d.terms.len()));
+            loc.check_at("predicates", d.is_zero(), || format!("{}: (&a-&a).is_zero() is false", what()));
+        }
+    });
+}
+
 fn dense_poly_checks(ctx: &mut Ctx) {
     let n = 125u64;
     let dig3 = |i: u64| -> Vec<u64> { unrank_vec(i, &[5, 5, 5]) };
@@ -2074,6 +2136,7 @@ fn main() {
     pairing_checks::<ark_mnt4_298::MNT4_298>(&mut ctx, "mnt4_298");
 
     dense_poly_checks(&mut ctx);
+    mv_poly_checks(&mut ctx);
     sparse_poly_checks(&mut ctx);
     mle_checks(&mut ctx);
     std::process::exit(ctx.finish());
